@@ -175,6 +175,7 @@ fn psd_case(g: &mut Gen, S: &Mat, Z: &Mat, X: &Mat, Y: &Mat, tag: &str) {
         let mut c = vh::PSDTriangleCone::<f64>::new(n);
         let ok = c.update_scaling(&s, &z, 1.0, ScalingStrategy::PrimalDual);
         let (lam, rr, ri) = (c.verif_lambda().to_vec(), c.verif_R(), c.verif_Rinv());
+        let ((l1, l2), (su, ss, svt), isq) = (c.verif_chol_L(), c.verif_svd(), c.verif_lambda_isqrt().to_vec());
         let mut wz = garbage(nv);
         vh::mul_W(&mut c, false, &mut wz, &z, 1.0, 0.0);
         let mut wits = garbage(nv);
@@ -183,10 +184,14 @@ fn psd_case(g: &mut Gen, S: &Mat, Z: &Mat, X: &Mat, Y: &Mat, tag: &str) {
         let mut work = garbage(nv);
         c.mul_Hs(&mut hsz, &z, &mut work);
         let o = drive(&mut c, &z, &x, &y, 1.0, 0.0, 0.5, nv * (nv + 1) / 2, false);
-        (ok, lam, rr, ri, wz, wits, hsz, o, c.Hs_is_diagonal())
+        (ok, lam, rr, ri, wz, wits, hsz, o, c.Hs_is_diagonal(), l1, l2, su, ss, svt, isq)
     });
-    let Some((ok, lam, rr, ri, wz, wits, hsz, o, diag)) = r else { g.sink.case("psd_scaling", input, "1%N".into(), &[tag, "panic"]); return; };
+    let Some((ok, lam, rr, ri, wz, wits, hsz, o, diag, l1, l2, su, ss, svt, isq)) = r else { g.sink.case("psd_scaling", input, "1%N".into(), &[tag, "panic"]); return; };
     let fin = |v: &[f64]| v.iter().all(|x| x.is_finite());
+    if !(fin(&l1) && fin(&l2) && fin(&su) && fin(&ss) && fin(&svt) && fin(&isq)) {
+        g.sink.case("psd_scaling", input, "1%N".into(), &[tag, "nonfinite"]);
+        return;
+    }
     if !(ok && fin(&lam) && fin(&rr) && fin(&ri) && fin(&wz) && fin(&wits) && fin(&hsz) && fin(&o.hs) && fin(&o.hsx) && fin(&o.wwinvx) && fin(&o.winvwx) && fin(&o.w1x) && fin(&o.wty)) {
         g.sink.case("psd_scaling", input, "1%N".into(), &[tag, "nonfinite-or-refused"]);
         return;
@@ -196,7 +201,8 @@ fn psd_case(g: &mut Gen, S: &Mat, Z: &Mat, X: &Mat, Y: &Mat, tag: &str) {
     for k in 0..n { lamvec[k * (k + 3) / 2] = lam[k]; }
     let sc = maxabs(&lam);
     let coq = format!(
-        "(maxl [ofb {nd}; p_psd_nt (-30) {n} {r} {ri} {l} {S} {Z}; p_close2 (-26) {sc} {lv} {wz} {wits}; p_close2 (-26) {ssc} {sv} {hsz} {hsz}; p_hs_dense (-30) {hs} {x} {hsx}; p_inverse (-26) {xsc} {x} {ww} {ww2}; p_transpose (-30) {w1x} {y} {x} {wty}])",
+        "(maxl [ofb {nd}; p_psd_factors (-36) {n} {S} {Z} {l1} {l2} {su} {ss} {svt} {isq} {r} {ri}; c_bitsame {lf} {ssf}; p_psd_nt (-30) {n} {r} {ri} {l} {S} {Z}; p_close2 (-26) {sc} {lv} {wz} {wits}; p_close2 (-26) {ssc} {sv} {hsz} {hsz}; p_hs_dense (-30) {hs} {x} {hsx}; p_inverse (-26) {xsc} {x} {ww} {ww2}; p_transpose (-30) {w1x} {y} {x} {wty}])",
+        l1 = cdylist(&l1), l2 = cdylist(&l2), su = cdylist(&su), ss = cdylist(&ss), svt = cdylist(&svt), isq = cdylist(&isq), ssf = cfllist(&ss), lf = cfllist(&lam),
         nd = !diag, n = n, r = cdylist(&rr), ri = cdylist(&ri), l = cdylist(&lam), S = cdymat(S), Z = cdymat(Z),
         sc = cdy(sc), lv = cdylist(&lamvec), wz = cdylist(&wz), wits = cdylist(&wits),
         ssc = cdy(maxabs(&s)), sv = cdylist(&s), hsz = cdylist(&hsz),
@@ -365,8 +371,8 @@ const AB_GRID: [(f64, f64); 12] = [(0.0, 0.0), (0.0, 1.0), (0.0, -1.0), (0.0, 0.
                                    (1.0, 0.0), (-1.0, 0.0), (2.0, 0.0), (1.0, 1.0), (2.0, 0.5), (0.5, -1.0), (-3.0, 2.0)];
 /// unit vectors, vectors with x0 = 0, a generic vector
 fn probes(rng: &mut Rng, n: usize) -> Vec<Vec<f64>> {
-    let mut v: Vec<Vec<f64>> = (0..n.min(6)).map(|i| { let mut e = vec![0.0; n]; e[i] = 1.0; e }).collect();
-    if n > 6 { let mut e = vec![0.0; n]; e[n - 1] = 1.0; v.push(e); }
+    let mut v: Vec<Vec<f64>> = (0..n.min(4)).map(|i| { let mut e = vec![0.0; n]; e[i] = 1.0; e }).collect();
+    if n > 4 { let mut e = vec![0.0; n]; e[n - 1] = 1.0; v.push(e); }
     let mut x: Vec<f64> = (0..n).map(|_| (rng.unit() - 0.5) * 4.0).collect();
     x[0] = 0.0;
     v.push(x);
@@ -376,7 +382,7 @@ fn probes(rng: &mut Rng, n: usize) -> Vec<Vec<f64>> {
 /// runs mul_W / mul_Winv (N and T) over the (alpha, beta) grid with garbage in the output buffer and
 /// returns Coq conjuncts: the contract y_out = alpha*(W x) + beta*y_in in exact dyadics (W x taken
 /// from the call with alpha = 1, beta = 0), plus whatever `model` adds for the model comparison
-fn ab_conjuncts<C: SymmetricCone<f64>>(c: &mut C, x: &[f64], model: &dyn Fn(bool, f64, f64, &[f64], &[f64]) -> Option<String>) -> Option<Vec<String>> {
+fn ab_conjuncts<C: SymmetricCone<f64>>(c: &mut C, x: &[f64], full_t: bool, model: &dyn Fn(bool, f64, f64, &[f64], &[f64]) -> Option<String>) -> Option<Vec<String>> {
     let n = x.len();
     let yin = garbage(n);
     let mut parts = vec![];
@@ -385,7 +391,8 @@ fn ab_conjuncts<C: SymmetricCone<f64>>(c: &mut C, x: &[f64], model: &dyn Fn(bool
             let mut refx = garbage(n);
             if inv { vh::mul_Winv(c, tr, &mut refx, x, 1.0, 0.0) } else { vh::mul_W(c, tr, &mut refx, x, 1.0, 0.0) };
             if !refx.iter().all(|v| v.is_finite()) { return None; }
-            for &(a, b) in AB_GRID.iter() {
+            let grid: &[(f64, f64)] = if tr && !full_t { &[(0.0, 2.0), (2.0, 0.5)] } else { &AB_GRID };
+            for &(a, b) in grid.iter() {
                 let mut y = yin.clone();
                 if inv { vh::mul_Winv(c, tr, &mut y, x, a, b) } else { vh::mul_W(c, tr, &mut y, x, a, b) };
                 if !y.iter().all(|v| v.is_finite()) { return None; }
@@ -414,7 +421,7 @@ fn probe_cases(g: &mut Gen, thorough: bool) {
                     let w = c.verif_w().to_vec();
                     let wl = cfllist(&w);
                     let xl = cfllist(&x);
-                    ab_conjuncts(&mut c, &x, &|inv, a, b, yin, y| Some(format!("cmpv_el (0x1p-44)%float ({} F {} {} {} {} {}) {}",
+                    ab_conjuncts(&mut c, &x, false, &|inv, a, b, yin, y| Some(format!("cmpv_el (0x1p-44)%float ({} F {} {} {} {} {}) {}",
                         if inv { "nn_mul_Winv" } else { "nn_mul_W" }, wl, xl, cfl(a), cfl(b), cfllist(yin), cfllist(y))))
                 });
                 match r {
@@ -442,12 +449,12 @@ fn probe_cases(g: &mut Gen, thorough: bool) {
                     let mut c = vh::SecondOrderCone::<f64>::new(n);
                     if !c.update_scaling(&s, &z, 1.0, ScalingStrategy::PrimalDual) { return None; }
                     let (wl, el, xl) = (cfllist(&c.w), cfl(c.η), cfllist(&x));
-                    let mut parts = ab_conjuncts(&mut c, &x, &|inv, a, b, yin, y| Some(format!("cmpv (0x1p-40)%float ({} F {} {} {} {} {} {}) {}",
+                    let mut parts = ab_conjuncts(&mut c, &x, false, &|inv, a, b, yin, y| Some(format!("cmpv (0x1p-40)%float ({} F {} {} {} {} {} {}) {}",
                         if inv { "soc_mul_Winv" } else { "soc_mul_W" }, wl, el, xl, cfl(a), cfl(b), cfllist(yin), cfllist(y))))?;
                     // the same probes after an identity reset
                     c.set_identity_scaling();
                     let (wl, el) = (cfllist(&c.w), cfl(c.η));
-                    parts.extend(ab_conjuncts(&mut c, &x, &|inv, a, b, yin, y| Some(format!("cmpv (0x1p-40)%float ({} F {} {} {} {} {} {}) {}",
+                    parts.extend(ab_conjuncts(&mut c, &x, false, &|inv, a, b, yin, y| Some(format!("cmpv (0x1p-40)%float ({} F {} {} {} {} {} {}) {}",
                         if inv { "soc_mul_Winv" } else { "soc_mul_W" }, wl, el, xl, cfl(a), cfl(b), cfllist(yin), cfllist(y))))?);
                     Some(parts)
                 });
@@ -471,7 +478,7 @@ fn probe_cases(g: &mut Gen, thorough: bool) {
                     let r = guarded(|| {
                         let mut c = vh::PSDTriangleCone::<f64>::new(n);
                         if !c.update_scaling(&s, &z, 1.0, ScalingStrategy::PrimalDual) { return None; }
-                        ab_conjuncts(&mut c, &x, &|_, _, _, _, _| None)
+                        ab_conjuncts(&mut c, &x, true, &|_, _, _, _, _| None)
                     });
                     match r {
                         Some(Some(parts)) => { g.sink.case("psd_probe", input, format!("(maxl [{}])", parts.join("; ")), &["probe"]); g.count("probe/psd"); }
